@@ -6,6 +6,9 @@
 //                      vbig  realistic group sizes, oracle only
 //                      tmcg  quadratic-residue encoding with small keys, records + oracle
 #include "common.hh"
+#include "c01_pipe.hh"
+#include <thread>
+#include <signal.h>
 #define private public
 #define protected public
 #include <libTMCG.hh>
@@ -285,14 +288,81 @@ static void tmcg_game(const Args &A, unsigned long keysize, size_t k, size_t w, 
 		if (rec && !priv) Rec("tm_open").d((long)k).d((long)w).t(keys).u(T).t(chain).t(hx((unsigned long)type));
 		if (type != T) propfail(std::string("tmcg-open-") + cls, "QR-encoded card of type " + std::to_string(T) + " opens as " + std::to_string(type) + " (k=" + std::to_string(k) + " w=" + std::to_string(w)
 			+ " keys=" + keys.substr(0, 400) + " chain length " + std::to_string(len) + ")");
-		// the interactive route for one foreign row (proof of the residuosity bits) must give the same bits
-		if (k > 1 && cno % 3 == 0) {
-			size_t prover = gen().below(k);
+		// ---- interactive opening with deviating announcements --------------------------------------------------------
+		// Every other player proves the residuosity of its row to the opener (TMCG_ProveCardSecret's loop, run in a second
+		// thread over two pipes) but ANNOUNCES truth + delta instead of the bit; the sub-proof is the honest one for the true
+		// residuosity.  TMCG_VerifyCardSecret selects the proof by the parity of the announced number and stores the number
+		// as received; whatever it accepts must open to exactly T.
+		if (k > 1 && cno % 2 == 0) {
+			size_t opener = gen().below(k);
 			TMCG_CardSecret vs(k, w);
-			std::stringstream a2b, b2a;
-			// the protocols are interactive; run prover and verifier in lock step through two threads is overkill here:
-			// the non-interactive part that matters for C01 is that SelfCardSecret and the verified bits agree (C03/C04 cover the proofs)
-			(void)prover; (void)vs;
+			tmcg->TMCG_SelfCardSecret(c, vs, *sec[opener], opener);
+			bool all_accepted = true, any_dev = false, parity_dev = false;
+			std::string devs;
+			for (size_t i = 0; i < k && all_accepted; i++) if (i != opener) {
+				// announced values for this row
+				std::vector<std::string> ann(w);
+				// at most one announcement of the wrong parity per row, in one row out of six: prover and verifier then run
+				// different sub-protocols and wait for each other; the prover's reads get a timeout in such rows only
+				bool row_parity_dev = gen().below(6) == 0; size_t pj = gen().below(w);
+				for (size_t j = 0; j < w; j++) {
+					long truth = tmcg_mpz_qrmn_p(&c.z[i][j], sec[i]->p, sec[i]->q) ? 0 : 1;
+					mpz_t a; mpz_init_set_si(a, truth);
+					unsigned sel = gen().below(14);
+					if (sel == 4 || sel == 6) sel = 7;
+					if (row_parity_dev && j == pj) sel = gen().coin() ? 4 : 6;
+					switch (sel) {
+					case 0: mpz_add_ui(a, a, 2); break;
+					case 1: mpz_add_ui(a, a, 4); break;
+					case 2: mpz_sub_ui(a, a, 2); break;
+					case 3: { mpz_t big; mpz_init_set_ui(big, 1); mpz_mul_2exp(big, big, 64 + gen().below(70)); mpz_add(a, a, big); mpz_clear(big); break; }  // large, same parity
+					case 4: { mpz_t big; mpz_init_set_ui(big, 1); mpz_mul_2exp(big, big, 64); mpz_add_ui(big, big, 1); mpz_add(a, a, big); mpz_clear(big); parity_dev = true; break; } // large, other parity
+					case 5: mpz_sub_ui(a, a, 4 + 2 * gen().below(50)); break;                   // negative, same parity
+					case 6: mpz_set_si(a, 1 - truth); parity_dev = true; break;                  // the wrong bit
+					default: break;
+					}
+					if (sel <= 6) { any_dev = true; devs += (devs.empty() ? "" : ",") + std::to_string(i) + ":" + std::to_string(j) + "=" + hx(a); }
+					ann[j] = hx(a); { std::ostringstream o; o << a; ann[j] = o.str(); }
+					mpz_clear(a);
+				}
+				int p2v[2], v2p[2];
+				if (pipe(p2v) || pipe(v2p)) { perror("pipe"); exit(2); }
+				SchindelhauerTMCG *ptm = new SchindelhauerTMCG(16, k, w);
+				std::thread prover([&]{
+					fdbuf ib(v2p[0], row_parity_dev ? 700 : -1), ob(p2v[1]); std::istream pin(&ib); std::ostream pout(&ob);
+					try {
+						for (size_t j = 0; j < w; j++) {
+							pout << ann[j] << std::endl;
+							if (tmcg_mpz_qrmn_p(&c.z[i][j], sec[i]->p, sec[i]->q)) ptm->TMCG_ProveQuadraticResidue(*sec[i], &c.z[i][j], pin, pout);
+							else ptm->TMCG_ProveNonQuadraticResidue(*sec[i], &c.z[i][j], pin, pout);
+							pout.flush();
+							if (!pin.good() && !pin.eof()) break;
+						}
+					} catch (...) { }
+					pout.flush();
+					close(p2v[1]); close(v2p[0]);        // the verifier sees end of file instead of waiting for a prover that gave up
+				});
+				bool ok;
+				{
+					fdbuf ib(p2v[0]), ob(v2p[1]); std::istream vin(&ib); std::ostream vout(&ob);
+					try { ok = tmcg->TMCG_VerifyCardSecret(c, vs, ring.keys[i], i, vin, vout); } catch (...) { ok = false; }
+					vout.flush();
+				}
+				// release the prover whatever state it is in
+				close(v2p[1]); close(p2v[0]);
+				prover.join();
+				delete ptm;
+				if (!ok) all_accepted = false;
+			}
+			if (!all_accepted) {
+				if (!any_dev) propfail(std::string("tmcg-honest-proof-rejected-") + cls, "TMCG_VerifyCardSecret rejected an honest residuosity proof (k=" + std::to_string(k) + " w=" + std::to_string(w) + " keys=" + keys.substr(0, 300) + ")");
+				else if (!parity_dev) propfail(std::string("tmcg-honest-proof-rejected-") + cls, "announcements with the true parity and honest proofs were rejected: " + devs.substr(0, 300));
+			} else {
+				size_t vtype = tmcg->TMCG_TypeOfCard(vs);
+				if (rec) Rec("tm_type").d((long)k).d((long)w).t(mat_tok(vs.b)).t(hx((unsigned long)vtype));
+				if (vtype != T) propfail("tmcg-open-deviating-announcement", "every contribution was verified, yet the card of type " + std::to_string(T) + " opens as " + std::to_string(vtype)
+					+ " (k=" + std::to_string(k) + " w=" + std::to_string(w) + " opener=" + std::to_string(opener) + " announced[player:bit=value]=" + (devs.empty() ? "honest" : devs.substr(0, 400)) + " b=" + mat_tok(vs.b).substr(0, 400) + ")");
+			}
 		}
 	}
 	delete tmcg;
@@ -314,6 +384,7 @@ static void section_tmcg(const Args &A) {
 int main(int argc, char **argv) {
 	Args A(argc, argv);
 	if (!init_libTMCG()) { fprintf(stderr, "init_libTMCG failed\n"); return 2; }
+	signal(SIGPIPE, SIG_IGN);
 	std::string o = A.only;
 	if (o.empty() || o == "vtmf") section_vtmf(A);
 	if (o.empty() || o == "vbig") section_vbig(A);
